@@ -6,7 +6,7 @@
    assigns one word per property ([vals]); [encode_record] / [encode_vertices_*] / [enc_face_*] are the reference
    encoder of the specification's grammar (ascii tokens, little- and big-endian bytes).  The reader model is
    [read_vertices_bin/ascii] with the built readers [bs], [faces_bin], [parse_header]. *)
-From PF Require Import Base.Bytes Formats.PlyRead Formats.PlyReadSpec Formats.PlyReadProofs Formats.PlyReadMesh Formats.PlyText Formats.PlyTextProofs.
+From PF Require Import Base.Bytes Formats.PlyRead Formats.PlyReadSpec Formats.PlyReadProofs Formats.PlyReadMesh Formats.PlyReadMore Formats.PlyText Formats.PlyTextProofs.
 From Coq Require Import String Lia.
 Open Scope list_scope.
 Open Scope N_scope.
@@ -36,8 +36,8 @@ Open Scope N_scope.
    (0,1,2),(0,2,3), per-corner texture coordinates the unwelded mesh.
    Two remarks.  (1) For a uchar (s, t) pair the Go code multiplies by 1/255 (vector2.DivByConstant) where model and
    [describe] divide by 255: one unit in the last place for 24 byte values; the check judges such files through
-   Formats/PlyReadV2.v.  (2) Elements after the face element are ignored by reader and model alike; that step is
-   covered by the correspondence check, not by this theorem.
+   Formats/PlyReadV2.v.  (2) Files that declare further elements after the face element (and carry their records after
+   the face records): [ply_files_with_trailing_elements_load] below (round 4).
    =================================================================================================================== *)
 Theorem ply_files_written_by_other_tools_load : forall a hl b',
   vertex_element_ok a -> face_element_ok a -> known_finding_excluded a ->
@@ -45,6 +45,27 @@ Theorem ply_files_written_by_other_tools_load : forall a hl b',
   exists m, describe a = Ok m /\ read_mesh {| pf_header := hl; pf_body := b' |} = Ok m.
 Proof. exact property_proof. Qed.
 Print Assumptions ply_files_written_by_other_tools_load.
+
+(* ROUND 4.  The same for files with further elements: [others] are elements another tool declares after vertex and
+   face (edge, material, camera, ... - any names but vertex / face, any scalar and list properties, any counts), [x] is
+   whatever it writes after the face records (their records).  Any header variant of the extended header and any body
+   variant of the extended body load, without error, to the mesh the vertex and face elements describe. *)
+Theorem ply_files_with_trailing_elements_load : forall a others x hl b',
+  vertex_element_ok a -> face_element_ok a -> known_finding_excluded a ->
+  Forall elem_good others -> Forall other_elem others ->
+  header_variant (with_more_elems (header_of a) others) hl -> body_variant (body_app (enc_body a) x) b' ->
+  exists m, describe a = Ok m /\ read_mesh {| pf_header := hl; pf_body := b' |} = Ok m.
+Proof. exact property_with_trailing_elements_proof. Qed.
+Print Assumptions ply_files_with_trailing_elements_load.
+
+(* the step behind it, for EVERY reader configuration, header and body (no hypothesis on the file but that it loads):
+   a successful load is not changed by elements declared after the ones the header has, nor by data after the body -
+   the vertex loop, the face loops and the list readers never look past what the header promised *)
+Theorem trailing_data_and_elements_ignored : forall gs u h others b x m,
+  Forall other_elem others ->
+  read_body gs u h b = Ok m -> read_body gs u (with_more_elems h others) (body_app b x) = Ok m.
+Proof. exact trailing_ignored_proof. Qed.
+Print Assumptions trailing_data_and_elements_ignored.
 
 (* the pieces of the packaging: blank lines inside an ascii body are skipped by vertex and face loops alike, for every
    header and every line list; alias spellings give the same header *)
@@ -260,6 +281,48 @@ Theorem quad_fan_ascii_partial : forall rs ip ct lt (fs : list (list (list N))) 
   Ok (flat_map (fun f => fan_tris (map (idx_ascii lt) (nth ip f []))) fs, []).
 Proof. exact quad_fan_ascii_proof. Qed.
 Print Assumptions quad_fan_ascii_partial.
+
+(* ROUND 4: "each quad contributes the two fan triangles over its listed vertices", in full.  One statement for face
+   elements with and without a texcoord list ([tp] = position of the texcoord list, if any; [faces_ok]: 3 or 4 corners,
+   with a texcoord list twice as many float / double coordinates), any other list properties around them, index list
+   anywhere with int / uint items, whatever follows the face block ([rest]), from the state MeshReader.Read starts in:
+   the index buffer is the concatenation of triangle / fan (0,1,2),(0,2,3) in face order, the per-corner texture
+   coordinates the same fan of the coordinate pairs.  Binary (both byte orders): *)
+Theorem quad_fan : forall e rs ip tp ct lt (fs : list (list (list N))) rest,
+  nth_error rs ip = Some (ct, lt) -> index_ty_ok lt = true -> faces_ok rs ip tp fs ->
+  faces_bin e rs ip tp (flat_map (enc_face_bin e rs) fs ++ rest) (List.length fs) fstate0 =
+  Ok (idx_fans ip fs, uv_fans rs tp fs).
+Proof. exact quad_fan_proof. Qed.
+Print Assumptions quad_fan.
+
+(* ... and ascii, one face per line, vertex numbers below 2^31, any lines after the faces: the same mesh data *)
+Theorem quad_fan_ascii : forall rs ip tp ct lt (fs : list (list (list N))) rest,
+  nth_error rs ip = Some (ct, lt) -> index_ty_ok lt = true -> faces_ok rs ip tp fs ->
+  Forall (fun f => Forall (fun w => w < 2 ^ 31) (nth ip f [])) fs ->
+  faces_ascii rs ip tp (map (enc_face_ascii rs) fs ++ rest) (List.length fs) fstate0 =
+  Ok (idx_fans ip fs, uv_fans rs tp fs).
+Proof. exact quad_fan_ascii_full_proof. Qed.
+Print Assumptions quad_fan_ascii.
+
+(* non-vacuity: a quad and a triangle with an extra list before, texture coordinates after the indices; bytes follow *)
+Example quad_fan_example :
+  let rs := [(UChar, UChar); (UChar, Int); (UChar, Float)] in
+  let fs := [[[7]; [0; 1; 2; 3]; [0; 0; 1065353216; 0; 1065353216; 1065353216; 0; 1065353216]];
+             [[]; [3; 1; 0]; [0; 1065353216; 1065353216; 0; 0; 0]]] in
+  faces_ok rs 1 (Some 2%nat) fs /\
+  faces_bin BEnd rs 1 (Some 2%nat) (flat_map (enc_face_bin BEnd rs) fs ++ [1; 2; 3]) 2 fstate0 =
+  Ok ([0; 1; 2; 0; 2; 3; 3; 1; 0]%Z, uv_fans rs (Some 2%nat) fs).
+Proof.
+  cbv zeta. split; [|vm_compute; reflexivity].
+  split; [eexists _, _; split; [reflexivity|left; reflexivity]|].
+  assert (L : forall r ws, count_ty_ok (fst r) = true -> N.of_nat (List.length ws) < 256 ->
+                Forall (word_fits (snd r)) ws -> list_ok r ws).
+  { intros r ws C Ln F. unfold list_ok. repeat split; try assumption; [|lia].
+    destruct r as [[] ?]; try discriminate C; unfold word_fits; cbn; lia. }
+  apply Forall_cons; [split; [|right; split; reflexivity]|apply Forall_cons; [split; [|left; split; reflexivity]|constructor]];
+    (apply Forall2_cons; [|apply Forall2_cons; [|apply Forall2_cons; [|apply Forall2_nil]]]); apply L; cbn; try reflexivity; try lia;
+    repeat constructor; unfold word_fits; cbn; lia.
+Qed.
 
 (* ---- comment and obj_info lines, blank lines, aliases ---- *)
 
@@ -478,4 +541,43 @@ Proof.
     split; [repeat constructor; cbn; intuition discriminate|]. split; [repeat constructor|].
     repeat constructor; unfold word_fits; cbn; lia.
   - left. split; reflexivity.
+Qed.
+
+(* ---- round 4: what the property excludes, as witnesses ---- *)
+
+(* the known finding ply:ascii-uchar-scalar-raw is a genuine exclusion: the ascii file "x y z float, quality uchar" with
+   the record (1, 2, 3, 128) loads, but not to the mesh it describes (quality = 128 instead of 128/255); the same
+   abstract file in binary_little_endian loads to exactly what it describes; and the ascii file is precisely what
+   [known_finding_excluded] rules out *)
+Theorem ascii_uchar_scalar_refuted :
+  (exists m m', read_mesh (encode (raw_uchar_file ASCII)) = Ok m /\ describe (raw_uchar_file ASCII) = Ok m' /\ mesh_eqb m m' = false) /\
+  (exists m, read_mesh (encode (raw_uchar_file BinLE)) = Ok m /\ describe (raw_uchar_file BinLE) = Ok m) /\
+  ~ known_finding_excluded (raw_uchar_file ASCII).
+Proof. exact ascii_uchar_scalar_refuted_proof. Qed.
+Print Assumptions ascii_uchar_scalar_refuted.
+
+(* elements are NOT read in header order (outside the quantifier, which ranges over vertex and face elements only): a
+   conformant file whose header declares an edge element with one record before the vertex element loads without
+   error, with the edge record (7, 8, 9) as the position of vertex 0 *)
+Theorem element_order_refuted :
+  exists m, read_mesh misplaced_file = Ok m /\
+            get_attr 3 "Position" (m_attrs m) = Some [[4619567317775286272; 4620693217682128896; 4621256167635550208]].
+Proof. exact misplaced_element_refuted_proof. Qed.
+Print Assumptions element_order_refuted.
+
+(* non-vacuity of [ply_files_with_trailing_elements_load]: the file of [variants_example] followed by an edge element
+   (scalar and list property) and a material element, with their records after the vertex records *)
+Example trailing_example :
+  let others := [{| e_name := "edge"; e_count := 2; e_props := [PScalar Int "vertex1"; PList UChar Int "faces"] |};
+                 {| e_name := "material"; e_count := 0; e_props := [PScalar UChar "red"] |}]%string in
+  Forall elem_good others /\ Forall other_elem others /\
+  let a := {| a_fmt := BinLE; a_vprops := [(Float, "x"); (Float, "y"); (Float, "z")]%string;
+              a_verts := [[1065353216; 1073741824; 1077936128]]; a_fprops := None; a_faces := [] |} in
+  option_map m_idx (match read_body default_groups true (with_more_elems (header_of a) others)
+                            (body_app (enc_body a) (BodyBin [5; 0; 0; 0; 2; 1; 0; 0; 0; 2; 0; 0; 0]))
+                    with Ok m => Some m | Err _ => None end) = Some [0%Z].
+Proof.
+  cbv zeta. split; [|split; [|vm_compute; reflexivity]].
+  - repeat constructor; cbn; lia.
+  - repeat constructor.
 Qed.
